@@ -162,12 +162,12 @@ static void mkobj(int idx, int sub, int flags, int type, int *a, int na) {
     if (type == T_DOM) {
         uint32_t size = na > 0 ? (uint32_t)a[0] : 0;
         CO_OBJ_DOM *d = (CO_OBJ_DOM *)exact(sizeof *d); d->Size = size; d->Offset = 0; d->Start = exact(size);
-        for (uint32_t i = 0; i < size; i++) d->Start[i] = (int)(i + 1) < na ? (uint8_t)a[i + 1] : 0xEE;
+        for (uint32_t i = 0; i < size; i++) d->Start[i] = (int)(i + 1) < na ? (uint8_t)a[i + 1] : (uint8_t)(i * 13 + 5);
         o->Data = (CO_DATA)d; odx[slot].aux = d; add_blk(idx, sub, d->Start, size, 0, slot);
     } else if (type == T_STR) {
         CO_OBJ_STR *s = (CO_OBJ_STR *)exact(sizeof *s); s->Offset = 0; s->Start = exact(na + 1);
         for (int i = 0; i < na; i++) s->Start[i] = (uint8_t)a[i];
-        s->Start[na] = 0; o->Data = (CO_DATA)s; odx[slot].aux = s; add_blk(idx, sub, s->Start, na + 1, 0, slot);
+        s->Start[na] = 0; o->Data = (CO_DATA)s; odx[slot].aux = s; add_blk(idx, sub, s->Start, na, 0, slot);
     } else if (type == T_HBCONS && sub > 0) {
         CO_HBCONS *h = (CO_HBCONS *)exact(sizeof *h); memset(h, 0, sizeof *h);
         h->Time = na > 0 ? (uint16_t)a[0] : 0; h->NodeId = na > 1 ? (uint8_t)a[1] : 0; h->Tmr = -1;
